@@ -16,7 +16,7 @@ from vlib import Result, f2b, enc_list, close
 
 PROP = 'C08'
 META = {
-    'level_text': 'Lean 4 theorems, for every linearly ordered field, every grid, every distribution and operation sequences of every length (induction over the operation list), about an executable model of reset / createBackup / revert / changeSizeClasses / addSizeClasses / adjustSizeClassesEuler / UpdatePBMEuler / LoadDistribution / enableRecording / record / setPSDtoRecordedTime / saveRecordedPSD / loadRecordedPSD and the ...FromN moment functions: the consistency invariant (class count >= 1, array lengths, boundaries = linspace(min,max) strictly increasing from min to max, centres = midpoints, populations >= 0, consistent backup) holds after construction and is preserved by every operation under its stated precondition (inv_init, inv_step, inv_run, inv_spec); extension leaves existing boundaries, populations, centres and every moment unchanged; re-meshing preserves the third moment iff (newV != 0 or M3 = 0), and the unrestricted claim is refuted on concrete rational witnesses (remesh_can_vanish, adjust_can_vanish, adjust_can_vanish_224); adaptive cap; reset; backup/revert across operations; every recorded row stays a consistent grid - grids that start at R = 0 and one-class grids included - and setPSDtoRecordedTime (first / last / blended record) preserves the invariant; a restored record is exactly what was recorded (grab_restores_record, grab_restores_grid, record_then_restore: boundaries, populations, class count, min/max = first/last boundary); moment purity, also stated along histories (moments_after_run, moments_history_independent: after ANY valid operation sequence, including revert and loading a record, every ...FromN function is the moment of the supplied N on the CURRENT boundaries).  The model is tied to PopulationBalance.py by differential correspondence on random operation sequences on every run (every attribute after every operation) and the predicates are also evaluated directly on the implementation.',
+    'level_text': 'Lean 4 theorems, for every linearly ordered field, every grid, every distribution and operation sequences of every length (induction over the operation list), about an executable model of reset / createBackup / revert / changeSizeClasses / addSizeClasses / adjustSizeClassesEuler / UpdatePBMEuler / LoadDistribution / enableRecording / record / setPSDtoRecordedTime / saveRecordedPSD / loadRecordedPSD and the ...FromN moment functions: the consistency invariant (class count >= 1, array lengths, boundaries = linspace(min,max) strictly increasing from min to max, centres = midpoints, populations >= 0, consistent backup) holds after construction and is preserved by every operation under its stated precondition (inv_init, inv_step, inv_run, inv_spec); extension leaves existing boundaries, populations, centres and every moment unchanged; re-meshing preserves the third moment iff (newV != 0 or M3 = 0), and the unrestricted claim is refuted on concrete rational witnesses (remesh_can_vanish, adjust_can_vanish, adjust_can_vanish_224); a re-mesh onto a grid of the SAME class width (translated by a fraction of a class or not) keeps width and third moment (change_preserves_M3_same_width), whereas the variant that skips the rescaling for an unchanged class width leaves newV instead (changeSkip_same_width_M3, changeSkip_same_width_iff; witness skipRescale_changes_M3: half-class shift of a two-class distribution, M3 706 -> 808); adaptive cap; reset; backup/revert across operations; every recorded row stays a consistent grid - grids that start at R = 0 and one-class grids included - and setPSDtoRecordedTime (first / last / blended record) preserves the invariant; a restored record is exactly what was recorded (grab_restores_record, grab_restores_grid, record_then_restore: boundaries, populations, class count, min/max = first/last boundary); moment purity, also stated along histories (moments_after_run, moments_history_independent: after ANY valid operation sequence, including revert and loading a record, every ...FromN function is the moment of the supplied N on the CURRENT boundaries).  The model is tied to PopulationBalance.py by differential correspondence on random operation sequences on every run (every attribute after every operation) and the predicates are also evaluated directly on the implementation.',
     'level_note': 'Trusted: Lean kernel + Mathlib, axioms propext/Classical.choice/Quot.sound (the concrete witnesses are evaluated by the kernel, `decide +kernel`, no extra axioms); the hand model KawinV.Grid equals the NumPy code only as far as this run compared them (about 900 / 12000 operation sequences with interleaved moment queries); exact-field arithmetic instead of IEEE doubles (strict monotonicity of linspace and exact moment equality on extension are exact-field facts, monitored on doubles to tolerance); NaN/inf populations and NumPy length-1 broadcasting are outside the model; radii are assumed non-negative (cMin >= 0; a lower end of exactly 0 is INCLUDED, also while recording: the model follows the repaired _grabPSDfromIndex of a549be2 - record length = position of the last non-zero boundary + 1 - and grab_restores_record / record_then_restore / record_inv / update_inv_any carry no positivity hypothesis; the pre-repair count is kept as grabOld with the witnesses grabOld_loses_last_class, grabOld_one_class_breaks and the general grabOld_zero_start_loses_class); saveRecordedPSD/loadRecordedPSD are modelled as an exact copy of the three arrays (the npz layer is trusted).  The full claim "re-meshing preserves M3 whenever the new grid covers the populated range" is FALSE of the code (recorded finding remesh-vanish-no-new-centre-in-support); the theorem proved is the iff-characterisation.  adjustSizeClassesEuler can raise IndexError (PSDsize[int(minBins/2)] on a grid with fewer classes) and record()/UpdatePBMEuler can raise ValueError when the record is narrower than the grid (bins > maxBins, or adaptive binning switched off after records were taken): the model returns none there, the invariant theorem speaks about successful operations, and the oracle accepts exactly these raises in a valid stream; any other exception of the code under test is reported as a violation keyed by the operation and by the operation that last replaced the grid.',
     'technique': 'Lean 4 proof over ordered fields (induction over operation sequences) + model/implementation differential correspondence on operation sequences + direct oracle with delta-debugging of failing sequences',
     'design_ref': 'DESIGN.md section 6, C08',
@@ -24,7 +24,7 @@ META = {
 LEAN_MODULES = ['KawinV.Props.C08']
 MONITORED = [
     'on IEEE doubles: boundaries strictly increasing and within 4 ulp of np.linspace(min, max, bins+1) after every operation (exact-field theorem, double-precision monitored)',
-    'on IEEE doubles: M0/M1/M3 unchanged by extension and M3 preserved by a covering re-mesh to rtol 1e-9 (exact-field theorems, monitored to tolerance)',
+    'on IEEE doubles: M0/M1/M3 unchanged by extension and M3 preserved by a covering re-mesh to rtol 1e-9 (exact-field theorems, monitored to tolerance); covering re-meshes are classed by class width (same-width-shifted / same-width-aligned / other) and every same-width one is also compared with the model as a single case (grid.samewidth: class widths, M3 after change, newV, the skip-rescale variant)',
     'operations leave originalMin/originalMax/originalBins and the caller-visible configuration untouched (monitored)',
 ]
 ASSUMPTIONS = [
@@ -1261,7 +1261,10 @@ def corr(ctx, nseq=None, oracle_only=False):
                 'more reach cMin = 0 by changeSizeClasses(0, ...), 15 % have one class; restore before / at / between / after the recorded times, '
                 'save + load of records; the restored state is compared with the harness\'s own copy of the records: exact record at/beyond '
                 'the ends, documented blend in between -, malformed: revert first, '
-                'bins=1/0, minBins>maxBins, empty histogram, wrong-length or negative distributions, zero-width grid, record times going back) '
+                'bins=1/0, minBins>maxBins, empty histogram, wrong-length or negative distributions, zero-width grid, record times going back; '
+                'same-width: a distribution with exactly empty margins, dense or sparse, re-meshed to a grid of EXACTLY the old class width '
+                'translated by 0.1-0.9 of a class / whole classes / backwards, bins default, explicit or changed - the same recipe also '
+                'replaces 20 % of the re-meshes of the other valid streams) '
                 '+ fixed witness sequences; every attribute compared after every operation; non-trivial = the sequence re-meshes, extends or '
                 'reverts a populated grid; distinct = (initial grid, recipe list)')
     maxlen = ctx.n(40, 400)
@@ -1325,7 +1328,50 @@ def corr(ctx, nseq=None, oracle_only=False):
                 what, at, a, b = ds[0]
                 res.disagree(what, dict(init=init, recipes=recipes, at=at,
                                         ops=[describe(s['op']) for s in tr['steps']][:12]), a, b)
+    if answers is not None:
+        same_width_correspondence(res, traces)
     return res
+
+
+def same_width_correspondence(res, traces, limit=200):
+    """every covering same-width re-mesh issued by changeSizeClasses is sent once more to the model as a single case
+    (`grid.samewidth`): the class width the model reads before and after (`firstWidth`), the third moment after the modelled
+    `change`, the third moment of the interpolated-not-rescaled distribution (`remeshNewV`) and the result of the variant
+    `changeSkipSameWidth` (NOT the code).  The implementation must agree with `change`; where the variant is distinguishable
+    (newV != M3 to 1e-9) the implementation must not reproduce the variant."""
+    lines, items = [], []
+    for tr in traces:
+        for i, st in enumerate(tr['steps']):
+            sw = st.get('sw')
+            if not sw or st['op'][0] != 'change' or sw['ext'] or len(lines) >= limit:
+                continue
+            pv = sw['prev']
+            if not (pv['max'] >= 10 * pv['min'] and pv['bins'] >= 1):
+                continue
+            op = st['op']
+            lines.append('grid.samewidth %s %s %d %d %d %s %s %s %s' % (f2b(pv['min']), f2b(pv['max']), pv['bins'], pv['minBins'], pv['maxBins'],
+                                                                     enc_list(pv['psd']), f2b(op[1]), f2b(op[2]), 'none' if op[3] is None else str(op[3])))
+            items.append((tr, i, sw))
+    if not lines:
+        return
+    for (tr, i, sw), ans in zip(items, vlib.run_driver(PROP, lines)):
+        t = ans.split()
+        case = dict(init=tr['init'], recipes=tr['recipes'], at=i, op=describe(tr['steps'][i]['op']))
+        if not t or t[0] != 'ok' or len(t) != 7 or 'E' in t[1:]:
+            res.disagree('same-width re-mesh: the model raised or the driver failed, the implementation did not', case, 'ok', ans[:80])
+            continue
+        wo, wn, m3o, m3c, newv, m3v = [vlib.b2f(x) for x in t[1:]]
+        res.count('samewidth-model-cases')
+        sc = max(abs(sw['m3a']), abs(sw['m3b']))
+        if not (close(wo, sw['w_old'], 1e-9) and close(wn, sw['w_new'], 1e-9)):
+            res.disagree('class width before / after a same-width re-mesh (firstWidth)', case, [sw['w_old'], sw['w_new']], [wo, wn])
+        elif not (close(m3o, sw['m3a'], 1e-9) and close(m3c, sw['m3b'], 1e-9)):
+            what = 'third moment after a same-width re-mesh is not that of the modelled changeSizeClasses'
+            if not close(newv, m3o, 1e-9) and close(newv, sw['m3b'], 1e-9):
+                what += ' but that of the interpolated, NOT rescaled distribution (the variant changeSkipSameWidth)'
+            res.disagree(what, case, [sw['m3a'], sw['m3b']], dict(before=m3o, after_change=m3c, newV=newv, after_variant=m3v))
+        if not close(newv, m3o, 1e-9):
+            res.count('samewidth-variant-distinguishable')
 
 
 def search(ctx, broken):
